@@ -97,20 +97,22 @@ Definition new_frame (m c f : bool) s : tframe :=
 Definition push_try (m c f : bool) s := set_ts (new_frame m c f s :: ts s) s.
 Definition pop_try s := set_ts (tl (ts s)) s.
 
-(* ---- restoreStacks (vm.go:777): closes the iterators of the dropped items (top first), truncates both *)
+(* ---- restoreStacks (vm.go:777) closes the iterators of the dropped items (top first) and truncates both stacks;
+   dropStacks (used for an uncatchable payload, ex == nil) only truncates *)
 Definition close_ev (id : nat) : nat := (1000 + id)%nat.
-Definition restore_stacks (iterLen refLen : nat) s :=
+Definition restore_stacks (close : bool) (iterLen refLen : nat) s :=
   let dropped := firstn (length (its s) - iterLen) (its s) in
-  set_refs (Nat.min refLen (refs s)) (set_its (low iterLen (its s)) (set_log (log s ++ map close_ev dropped) s)).
+  set_refs (Nat.min refLen (refs s)) (set_its (low iterLen (its s))
+    (set_log (if close then log s ++ map close_ev dropped else log s) s)).
 
 (* the register part of handleThrow's restore at frame [tf] (vm.go:809-818) *)
-Definition restore_at (tf : tframe) s :=
+Definition restore_at (close : bool) (tf : tframe) s :=
   let s1 := if Nat.ltb (t_csl tf) (length (cs s))
             then match nth_error (cs s) (length (cs s) - t_csl tf - 1) with
                  | Some c => set_cs (low (t_csl tf) (cs s)) (set_args (c_args c) (set_sb (c_sb c) (set_prg (c_prg c) s)))
                  | None => s end
             else s in
-  restore_stacks (t_iter tf) (t_ref tf) (set_stash (t_stash tf) (set_sp (t_sp tf) s1)).
+  restore_stacks close (t_iter tf) (t_ref tf) (set_stash (t_stash tf) (set_sp (t_sp tf) s1)).
 
 Inductive hres := HCatch | HFin.
 Inductive outcome :=
@@ -130,7 +132,7 @@ Fixpoint handle_loop (p : payload) (fr : list tframe) (s : state) : state * outc
   | tf :: rest =>
       if skippable p tf then handle_loop p rest s
       else
-        let s1 := restore_at tf s in
+        let s1 := restore_at (catchable p) tf s in
         if t_marker tf then (set_ts (tf :: rest) s1, OUnwound p)
         else if t_catch tf then
           (set_ts (mkTf (t_csl tf) (t_iter tf) (t_ref tf) (t_sp tf) (t_stash tf) false false (t_fin tf) :: rest) (add_sp 1 s1),
@@ -149,11 +151,13 @@ Variable lim : option nat.                    (* SetMaxCallStackSize; None = unl
 Variable faults : list (nat * fkind).         (* the k-th probe() call (0-based) performs the fault *)
 (* [fixed = false]: goja's algorithm as it is on the current tree (model I).
    [fixed = true] : the repaired algorithm (model S): generator/async marker+context pops also run on the panic
-   path (F16), RunProgram's recover path resets prg (F17), a recursive RunProgram whose own pushCtx overflows
-   does not pop what it never pushed (F21), a foreign Go panic leaving the outermost call drops the pending jobs (F22).
-   Wherever I deviates from S the ghost flag [leaked] is set (it is never read by the algorithm). *)
+   path (F16), a recursive RunProgram whose own pushCtx overflows does not pop what it never pushed (F21), a
+   foreign Go panic leaving the outermost call drops the pending jobs and resets prg (F22).
+   Wherever I deviates from S the ghost field [leaked] grows (it is never read by the algorithm).
+   F17 (RunProgram's recover path) and F12 (iterator.return() on uncatchable unwinding) are repaired in /repo:
+   both sides of the model carry the repaired algorithm. *)
 Variable fixed : bool.
-(* ghost: which recorded finding (16, 17, 21, 22) the execution ran into *)
+(* ghost: which recorded finding (16, 21, 22) the execution ran into *)
 Definition deviate (id : nat) (s : state) : state := set_leaked (id :: leaked s) s.
 Definition host_panic_exit (s : state) : state :=
   if Nat.eqb (length (cs s)) 0 then
@@ -185,8 +189,8 @@ Definition loop_out (r : state * outcome) : state * outcome :=
   | (s, _) => (s, OStuck)
   end.
 
-(* baseJsFuncObject.__call (func.go:397) with no arguments except [nargs] pushed values;
-   [s] is the state in the native context that makes the call *)
+(* baseJsFuncObject.__call (func.go:397) with [nargs] argument values; [s] is the state of the native context
+   that makes the call *)
 Definition reentry (ex : node -> state -> state * outcome) (nargs : Z) (body : list node) (s : state) : state * outcome :=
   let s1 := push_try true false false (add_sp (2 + nargs) s) in
   if over lim s1 then (pop_try s1, OPanic PSO) else
@@ -209,7 +213,7 @@ Definition vm_try (f : state -> state * outcome) (s : state) : state * outcome :
   match f s1 with
   | (s2, ONorm) => (pop_try s2, ONorm)
   | (s2, OPanic p) =>
-      let (s3, _) := handle_throw p s2 in
+      let s3 := fst (handle_throw p s2) in
       if catchable p then (pop_try s3, OUnwound PCatch) else (pop_try s3, OPanic p)
   | (s2, _) => (s2, OStuck)
   end.
@@ -225,11 +229,15 @@ Definition snapshot (s : state) : state := set_trace (take_snap s :: trace s) s.
 Definition policy (swallow : bool) (s : state) (p : payload) : state * outcome :=
   if catchable p && swallow then (snapshot s, ONorm) else (snapshot s, OPanic p).
 
-(* one level of infinite recursion function rec(){ rec() }: pushes contexts until pushCtx overflows *)
+(* one frame of a JS function called from JS: callee and this pushed, context saved, registers of the callee *)
+Definition call_enter (s : state) : state :=
+  set_sb (sp s + 1) (set_stash 0 (set_prg true (set_args 0 (push_ctx (add_sp 2 s))))).
+
+(* infinite recursion function rec(){ rec() }: pushes frames until pushCtx overflows *)
 Fixpoint rec_push (k : nat) (s : state) : state :=
   match k with
   | O => add_sp 2 s
-  | S k' => rec_push k' (set_sb (sp s + 1) (set_stash 0 (set_prg true (set_args 0 (push_ctx (add_sp 2 s))))))
+  | S k' => rec_push k' (call_enter s)
   end.
 
 (* native call of a Go function from JS with [n] arguments already pushed (nativeFuncObject.vmCall) *)
@@ -261,101 +269,219 @@ Definition gen_enter_next (extra : Z) (s : state) : state * outcome :=
 Definition gen_leave (s : state) : state :=
   pop_ctx (pop_try (set_cs (tl (cs s)) (set_sp (sb s - 1) s))).
 
-Fixpoint exec (fuel : nat) (nd : node) (s : state) {struct fuel} : state * outcome :=
-  match fuel with O => (s, OStuck) | S f =>
-  let ex := exec f in
-  (* Callable (runtime.go:2468 / runWrapped 2504) from a native context *)
-  let run_wrapped (body : list node) (s : state) : state * outcome * option payload :=
-    match vm_try (reentry ex 0 body) s with
-    | (s1, ONorm) =>
-        if Nat.eqb (length (cs s1)) 0 then
-          match leave f s1 with (s2, ONorm) => (s2, ONorm, None) | (s2, OPanic p) =>
-            if uncatchable_err p then (if Nat.eqb (length (cs s2)) 0 then leave_abrupt s2 else s2, ONorm, Some p)
-            else (host_panic_exit s2, OPanic p, None)
-          | (s2, o) => (s2, o, None) end
-        else (s1, ONorm, None)
-    | (s1, OUnwound p) =>
-        if Nat.eqb (length (cs s1)) 0 then
-          match leave f s1 with (s2, ONorm) => (s2, ONorm, Some p) | (s2, OPanic p') =>
-            if uncatchable_err p' then (if Nat.eqb (length (cs s2)) 0 then leave_abrupt s2 else s2, ONorm, Some p')
-            else (host_panic_exit s2, OPanic p', None)
-          | (s2, o) => (s2, o, None) end
-        else (s1, ONorm, Some p)
-    | (s1, OPanic p) =>
-        if uncatchable_err p then (if Nat.eqb (length (cs s1)) 0 then leave_abrupt s1 else s1, ONorm, Some p)
-        else (host_panic_exit s1, OPanic p, None)
-    | (s1, o) => (s1, o, None)
-    end in
+(* the exit of a generator/async resumption whose body panicked (the body's run loop already unwound to the
+   resumption's marker): popTryFrame + popCtx run only when the exception is a JS exception (F16) *)
+Definition gen_abort (s : state) (p : payload) : state :=
+  if catchable p || fixed then pop_ctx (pop_try s) else deviate 16 s.
+
+Section Nodes.
+Variable ex : node -> state -> state * outcome.                                   (* nodes, one unit of fuel less *)
+Variable lv : state -> state * outcome.                                           (* Runtime.leave *)
+Variable rt : list node -> state -> state * outcome * option payload.             (* outermost RunProgram *)
+
+(* recover path of runWrapped / RunProgram for a panic value p *)
+Definition recover_wrapped (s : state) (p : payload) : state * outcome * option payload :=
+  if uncatchable_err p then ((if Nat.eqb (length (cs s)) 0 then leave_abrupt s else s), ONorm, Some p)
+  else (host_panic_exit s, OPanic p, None).
+
+Definition wrapped_tail (s1 : state) (err : option payload) : state * outcome * option payload :=
+  if Nat.eqb (length (cs s1)) 0 then
+    match lv s1 with
+    | (s2, ONorm) => (s2, ONorm, err)
+    | (s2, OPanic p) => recover_wrapped s2 p
+    | (s2, o) => (s2, o, None)
+    end
+  else (s1, ONorm, err).
+
+(* Callable (runtime.go:2468) = runWrapped (2504) around vm.try(__call); third component: the error returned *)
+Definition run_wrapped (body : list node) (s : state) : state * outcome * option payload :=
+  match vm_try (reentry ex 0 body) s with
+  | (s1, ONorm) => wrapped_tail s1 None
+  | (s1, OUnwound p) => wrapped_tail s1 (Some p)
+  | (s1, OPanic p) => recover_wrapped s1 p
+  | (s1, o) => (s1, o, None)
+  end.
+
+(* what the Go function probe() does once it is entered *)
+Definition probe_act (s2 : state) : state * outcome :=
+  let k := pcount s2 in
+  let s3 := snapshot (set_pcount (S k) s2) in
+  match lookup_fault faults k with
+  | None => (s3, ONorm)
+  | Some FThrow => (s3, OPanic PCatch)
+  | Some FGo => (s3, OPanic PGo)
+  | Some FIntr => (set_intr true s3, ONorm)
+  | Some FRec =>
+      match run_wrapped [Rec] s3 with
+      | (s4, ONorm, Some p) => (s4, OPanic p)
+      | (s4, o, _) => (s4, o)
+      end
+  end.
+
+Definition call_node (body : list node) (s : state) : state * outcome :=
+  let s1 := add_sp 2 s in
+  if over lim s1 then raise PSO s1 else
+  match run_items ex body (call_enter s) with
+  | (s3, ONorm) => (set_sp (sp s) (pop_ctx s3), ONorm)
+  | r => r
+  end.
+
+Definition dead_top (s : state) : state :=
+  match ts s with
+  | tf :: rest => set_ts (mkTf (t_csl tf) (t_iter tf) (t_ref tf) (t_sp tf) (t_stash tf) false false false :: rest) s
+  | [] => s
+  end.
+
+(* leaveTry / leaveFinally on the normal path *)
+Definition try_finish (fin : list node) (s : state) : state * outcome :=
+  match ts s with
+  | tf :: rest =>
+      if t_fin tf then
+        match run_items ex fin (set_stash (t_stash tf) (set_sp (t_sp tf) (dead_top s))) with
+        | (s2, ONorm) => (pop_try s2, ONorm)
+        | r => r
+        end
+      else (pop_try s, ONorm)
+  | [] => (s, OStuck)
+  end.
+
+(* the finally block entered with a pending exception: leaveFinally pops the frame and re-throws *)
+Definition try_dofin (fin : list node) (s2 : state) (p : payload) : state * outcome :=
+  match run_items ex fin s2 with
+  | (s3, ONorm) => raise p (pop_try s3)
+  | r => r
+  end.
+
+Definition try_node (body cat fin : list node) (hc hf : bool) (s : state) : state * outcome :=
+  let idx := length (ts s) in
+  match run_items ex body (push_try false hc hf s) with
+  | (s2, ONorm) => try_finish fin s2
+  | (s2, OCaught i h p) =>
+      if Nat.eqb i idx then
+        match h with
+        | HCatch =>
+            match run_items ex cat (add_sp (-1) s2) with
+            | (s3, ONorm) => try_finish fin s3
+            | (s3, OCaught i' h' p') => if Nat.eqb i' idx then try_dofin fin s3 p' else (s3, OCaught i' h' p')
+            | r => r
+            end
+        | HFin => try_dofin fin s2 p
+        end
+      else (s2, OCaught i h p)
+  | r => r
+  end.
+
+(* iterNext: iteratorRecord.step = vm.try(next()) ; the loop of a for-of statement with k elements left *)
+Fixpoint forof_loop (next body : list node) (k : nat) (s : state) : state * outcome :=
+  if intr s then raise PIntr s else
+  match vm_try (reentry ex 0 next) s with
+  | (s3, ONorm) =>
+      match k with
+      | O => (set_its (tl (its s3)) s3, ONorm)        (* done: jump out, enumPop *)
+      | S k' =>
+          match run_items ex body s3 with
+          | (s4, ONorm) => forof_loop next body k' s4
+          | r => r
+          end
+      end
+  | (s3, OUnwound p) => raise p (set_its (tl (its s3)) s3)     (* next() threw: item dropped, not closed *)
+  | (s3, OPanic p) => raise p s3
+  | (s3, _) => (s3, OStuck)
+  end.
+
+Definition forof_node (id : nat) (next : list node) (n : nat) (body : list node) (s : state) : state * outcome :=
+  (* iterate: getIterator calls [Symbol.iterator]() (a JS function with an empty body) *)
+  match reentry ex 0 [] (add_sp 1 s) with
+  | (s1, OPanic p) => raise p s1
+  | (s1, ONorm) => forof_loop next body n (set_its (id :: its s1) (add_sp (-1) s1))
+  | (s1, _) => (s1, OStuck)
+  end.
+
+(* native next() of a generator object created by gen_k(): one resumption running [seg] up to a yield *)
+Definition gen_resume (extra : Z) (seg : list node) (s3 : state) : state * outcome :=
+  match gen_enter_next extra s3 with
+  | (s4, ONorm) =>
+      match loop_out (run_items ex seg (add_sp (- extra) s4)) with
+      | (s5, ONorm) => (gen_leave s5, ONorm)
+      | (s5, OPanic p) => (gen_abort s5 p, OPanic p)
+      | r => r
+      end
+  | r => r
+  end.
+
+Definition gen_node (seg : list node) (s : state) : state * outcome :=
+  (* gen_k().next(): creation ... *)
+  match gen_enter (add_sp 2 s) with
+  | (s1, OPanic p) => raise p s1
+  | (s1, ONorm) =>
+      (* the prologue runs to the initial yield; suspend; popTryFrame; popCtx; the generator object replaces the callee;
+         then the native next() *)
+      native_call 0 (gen_resume 0 seg) (set_sp (sp s) (gen_leave s1))
+  | (s1, _) => (s1, OStuck)
+  end.
+
+Definition async_node (seg1 seg2 : list node) (s : state) : state * outcome :=
+  match gen_enter (add_sp 2 s) with
+  | (s1, OPanic p) => raise p s1
+  | (s1, ONorm) =>
+      match loop_out (run_items ex seg1 s1) with
+      | (s2, ONorm) => (set_sp (sp s) (set_jq (jq s2 ++ [JAsync seg2]) (gen_leave s2)), ONorm)
+      | (s2, OPanic p) =>
+          if catchable p then (set_sp (sp s) (pop_ctx (pop_try s2)), ONorm)
+          else raise p (gen_abort s2 p)
+      | r => r
+      end
+  | (s1, _) => (s1, OStuck)
+  end.
+
+Fixpoint nforof_loop (id : nat) (next acts : list node) (k : nat) (s : state) : state * outcome :=
+  match vm_try (reentry ex 0 next) s with
+  | (s2, ONorm) =>
+      match k with
+      | O => (s2, ONorm)
+      | S k' =>
+          match vm_try (run_acts ex acts) s2 with
+          | (s3, ONorm) => nforof_loop id next acts k' s3
+          | (s3, OUnwound p) => (set_log (log s3 ++ [close_ev id]) s3, OPanic p)
+          | r => r
+          end
+      end
+  | (s2, OUnwound p) => (s2, OPanic p)
+  | r => r
+  end.
+
+(* recursive RunProgram (runtime.go:1434): the deferred function runs whatever happened *)
+Definition nrun_rec (swallow : bool) (body : list node) (s : state) : state * outcome :=
+  let fin (s : state) := pop_ctx (add_sp (-2) s) in
+  if over lim s then
+    (* pushCtx panicked before anything was pushed; the deferred function still does sp -= 2; popCtx *)
+    let s' := if fixed then s else deviate 21 (fin s) in
+    policy swallow (if Nat.eqb (length (cs s')) 0 then leave_abrupt s' else s') PSO
+  else
+  let s1 := set_prg true (add_sp 2 (set_sb (sp s + 1) (set_args 0 (set_stash 0 (push_ctx s))))) in
+  match loop_out (run_items ex body (push_try true false false s1)) with
+  | (s2, ONorm) => (fin (pop_try s2), ONorm)
+  | (s2, OPanic p) =>
+      let s3 := fin (pop_try s2) in
+      if catchable p then policy swallow s3 p
+      else if uncatchable_err p then
+        policy swallow (if Nat.eqb (length (cs s3)) 0 then leave_abrupt s3 else s3) p
+      else (s3, OPanic p)
+  | r => r
+  end.
+
+Definition node_step (nd : node) (s : state) : state * outcome :=
   match nd with
   | Effect n => (set_log (log s ++ [n]) s, ONorm)
   | Throw => raise PCatch s
-  | Probe =>
-      native_call 0 (fun s2 =>
-        let k := pcount s2 in
-        let s3 := snapshot (set_pcount (S k) s2) in
-        match lookup_fault faults k with
-        | None => (s3, ONorm)
-        | Some FThrow => (s3, OPanic PCatch)
-        | Some FGo => (s3, OPanic PGo)
-        | Some FIntr => (set_intr true s3, ONorm)
-        | Some FRec =>
-            match run_wrapped [Rec] s3 with
-            | (s4, ONorm, Some p) => (s4, OPanic p)
-            | (s4, o, _) => (s4, o)
-            end
-        end) s
+  | Probe => native_call 0 probe_act s
   | Rec =>
       match lim with
       | None => (s, OStuck)
       | Some m => raise PSO (rec_push (S m - length (cs s)) s)
       end
-  | Call body =>
-      let s1 := add_sp 2 s in
-      if over lim s1 then raise PSO s1 else
-      let s2 := set_sb (sp s + 1) (set_stash 0 (set_prg true (set_args 0 (push_ctx s1)))) in
-      match run_items ex body s2 with
-      | (s3, ONorm) => (set_sp (sp s) (pop_ctx s3), ONorm)
-      | r => r
-      end
-  | Try body cat fin hc hf =>
-      let idx := length (ts s) in
-      let s1 := push_try false hc hf s in
-      (* leaveTry / leaveFinally on the normal path *)
-      let finish (s : state) : state * outcome :=
-        match ts s with
-        | tf :: rest =>
-            if t_fin tf then
-              let s' := set_stash (t_stash tf) (set_sp (t_sp tf)
-                         (set_ts (mkTf (t_csl tf) (t_iter tf) (t_ref tf) (t_sp tf) (t_stash tf) false false false :: rest) s)) in
-              match run_items ex fin s' with
-              | (s2, ONorm) => (pop_try s2, ONorm)
-              | r => r
-              end
-            else (pop_try s, ONorm)
-        | [] => (s, OStuck)
-        end in
-      (* the finally block entered with a pending exception: leaveFinally pops the frame and re-throws *)
-      let do_fin (s2 : state) (p : payload) : state * outcome :=
-        match run_items ex fin s2 with
-        | (s3, ONorm) => raise p (pop_try s3)
-        | r => r
-        end in
-      match run_items ex body s1 with
-      | (s2, ONorm) => finish s2
-      | (s2, OCaught i h p) =>
-          if Nat.eqb i idx then
-            match h with
-            | HCatch =>
-                match run_items ex cat (add_sp (-1) s2) with
-                | (s3, ONorm) => finish s3
-                | (s3, OCaught i' h' p') => if Nat.eqb i' idx then do_fin s3 p' else (s3, OCaught i' h' p')
-                | r => r
-                end
-            | HFin => do_fin s2 p
-            end
-          else (s2, OCaught i h p)
-      | r => r
-      end
+  | Call body => call_node body s
+  | Try body cat fin hc hf => try_node body cat fin hc hf s
   | Scope body =>
       match run_items ex body (set_stash (S (stash s)) s) with
       | (s1, ONorm) => (set_stash (Nat.pred (stash s1)) s1, ONorm)
@@ -373,70 +499,9 @@ Fixpoint exec (fuel : nat) (nd : node) (s : state) {struct fuel} : state * outco
       | (s1, _) => (s1, OStuck)
       end
   | Native acts => native_call 0 (run_acts ex acts) s
-  | ForOf id next n body =>
-      (* iterate: getIterator calls [Symbol.iterator]() (a JS function with an empty body) *)
-      match reentry ex 0 [] (add_sp 1 s) with
-      | (s1, OPanic p) => raise p s1
-      | (s1, ONorm) =>
-          let s2 := set_its (id :: its s1) (add_sp (-1) s1) in
-          (* iterNext: iteratorRecord.step = vm.try(next()) *)
-          let step (s : state) := vm_try (reentry ex 0 next) s in
-          let fix loop (k : nat) (s : state) : state * outcome :=
-            if intr s then raise PIntr s else
-            match step s with
-            | (s3, ONorm) =>
-                match k with
-                | O => (set_its (tl (its s3)) s3, ONorm)        (* done: jump out, enumPop *)
-                | S k' =>
-                    match run_items ex body s3 with
-                    | (s4, ONorm) => loop k' s4
-                    | r => r
-                    end
-                end
-            | (s3, OUnwound p) => raise p (set_its (tl (its s3)) s3)     (* next() threw: item dropped, not closed *)
-            | (s3, OPanic p) => raise p s3
-            | (s3, _) => (s3, OStuck)
-            end in
-          loop n s2
-      | (s1, _) => (s1, OStuck)
-      end
-  | Gen seg =>
-      (* gen_k().next():  creation ... *)
-      match gen_enter (add_sp 2 s) with
-      | (s1, OPanic p) => raise p s1
-      | (s1, ONorm) =>
-          (* the prologue runs to the initial yield; suspend; popTryFrame; popCtx; push the generator object *)
-          let s2 := add_sp 1 (gen_leave s1) in
-          (* ... then the native next() *)
-          let s2' := set_sp (sp s) s2 in
-          native_call 0 (fun s3 =>
-            match gen_enter_next 0 s3 with
-            | (s4, ONorm) =>
-                match loop_out (run_items ex seg s4) with
-                | (s5, ONorm) => (gen_leave s5, ONorm)
-                | (s5, OPanic p) =>
-                    if catchable p || fixed then (pop_ctx (pop_try s5), OPanic p)
-                    else (deviate 16 s5, OPanic p)
-                | r => r
-                end
-            | r => r
-            end) s2'
-      | (s1, _) => (s1, OStuck)
-      end
-  | Async seg1 seg2 =>
-      match gen_enter (add_sp 2 s) with
-      | (s1, OPanic p) => raise p s1
-      | (s1, ONorm) =>
-          match loop_out (run_items ex seg1 s1) with
-          | (s2, ONorm) => (set_sp (sp s) (set_jq (jq s2 ++ [JAsync seg2]) (gen_leave s2)), ONorm)
-          | (s2, OPanic p) =>
-              if catchable p then (set_sp (sp s) (pop_ctx (pop_try s2)), ONorm)
-              else if fixed then raise p (pop_ctx (pop_try s2))
-              else raise p (deviate 16 s2)
-          | r => r
-          end
-      | (s1, _) => (s1, OStuck)
-      end
+  | ForOf id next n body => forof_node id next n body s
+  | Gen seg => gen_node seg s
+  | Async seg1 seg2 => async_node seg1 seg2 s
   | Then body => native_call 1 (fun s2 => (set_jq (jq s2 ++ [JThen body]) s2, ONorm)) s
   | NCallable swallow body =>
       match run_wrapped body s with
@@ -452,120 +517,98 @@ Fixpoint exec (fuel : nat) (nd : node) (s : state) {struct fuel} : state * outco
       end
   | NForOf id next n acts =>
       match reentry ex 0 [] s with
-      | (s1, ONorm) =>
-          let fix loop (k : nat) (s : state) : state * outcome :=
-            match vm_try (reentry ex 0 next) s with
-            | (s2, ONorm) =>
-                match k with
-                | O => (s2, ONorm)
-                | S k' =>
-                    match vm_try (run_acts ex acts) s2 with
-                    | (s3, ONorm) => loop k' s3
-                    | (s3, OUnwound p) => (set_log (log s3 ++ [close_ev id]) s3, OPanic p)
-                    | r => r
-                    end
-                end
-            | (s2, OUnwound p) => (s2, OPanic p)
-            | r => r
-            end in
-          loop n s1
+      | (s1, ONorm) => nforof_loop id next acts n s1
       | r => r
       end
   | NRun swallow body =>
-      if Nat.ltb 0 (length (cs s)) then
-        (* recursive RunProgram (runtime.go:1434): the deferred function runs whatever happened *)
-        let fin (s : state) := pop_ctx (add_sp (-2) s) in
-        if over lim s then
-          (* pushCtx panicked before anything was pushed; the deferred function still does sp -= 2; popCtx *)
-          let s' := if fixed then s else deviate 21 (fin s) in
-          policy swallow (if Nat.eqb (length (cs s')) 0 then leave_abrupt s' else s') PSO
-        else
-        let s1 := set_prg true (add_sp 2 (set_sb (sp s + 1) (set_args 0 (set_stash 0 (push_ctx s))))) in
-        match loop_out (run_items ex body (push_try true false false s1)) with
-        | (s2, ONorm) => (fin (pop_try s2), ONorm)
-        | (s2, OPanic p) =>
-            let s3 := fin (pop_try s2) in
-            if catchable p then policy swallow s3 p
-            else if uncatchable_err p then
-              policy swallow (if Nat.eqb (length (cs s3)) 0 then leave_abrupt s3 else s3) p
-            else (s3, OPanic p)
-        | r => r
-        end
+      if Nat.ltb 0 (length (cs s)) then nrun_rec swallow body s
       else
-        match run_top f body s with
+        match rt body s with
         | (s1, ONorm, Some p) => policy swallow s1 p
         | (s1, o, _) => (s1, o)
         end
-  end end
-(* Runtime.leave (runtime.go:2836): drain the job queue batch by batch (jobs, r.jobQueue = r.jobQueue, jobs[:0]);
-   each job is vm.try(callback); a panic leaving a job drops the rest of its batch *)
-with leave (fuel : nat) (s : state) {struct fuel} : state * outcome :=
-  match fuel with O => (s, OStuck) | S f =>
-  let run_job (j : job) (s0 : state) : state * outcome :=
-        match j with
-        | JThen body => vm_try (reentry (exec f) 1 body) s0
-        | JAsync seg =>
-            vm_try (fun s1 =>
-              match gen_enter_next 1 s1 with
-              | (s2, ONorm) =>
-                  match loop_out (run_items (exec f) seg (add_sp (-1) s2)) with
-                  | (s3, ONorm) =>
-                      (* ret: sp = sb; popCtx (halt frame); res = pop; popTryFrame; popCtx *)
-                      (pop_ctx (pop_try (add_sp (-1) (pop_ctx (set_sp (sb s3) s3)))), ONorm)
-                  | (s3, OPanic p) =>
-                      if catchable p then (pop_ctx (pop_try s3), ONorm)
-                      else if fixed then (pop_ctx (pop_try s3), OPanic p)
-                      else (deviate 16 s3, OPanic p)
-                  | r => r
-                  end
-              | r => r
-              end) s0
-        end in
-  let fix batch (js : list job) (s : state) : state * outcome :=
-    match js with
-    | [] => (s, ONorm)
-    | j :: rest =>
-        match run_job j s with
-        | (s1, ONorm) | (s1, OUnwound _) => batch rest s1
+  end.
+
+(* one promise job: vm.try(callback) *)
+Definition run_job (j : job) (s0 : state) : state * outcome :=
+  match j with
+  | JThen body => vm_try (reentry ex 1 body) s0
+  | JAsync seg =>
+      vm_try (fun s1 =>
+        match gen_enter_next 1 s1 with
+        | (s2, ONorm) =>
+            match loop_out (run_items ex seg (add_sp (-1) s2)) with
+            | (s3, ONorm) =>
+                (* ret: sp = sb; popCtx (halt frame); res = pop; popTryFrame; popCtx *)
+                (pop_ctx (pop_try (add_sp (-1) (pop_ctx (set_sp (sb s3) s3)))), ONorm)
+            | (s3, OPanic p) =>
+                if catchable p then (pop_ctx (pop_try s3), ONorm)
+                else (gen_abort s3 p, OPanic p)
+            | r => r
+            end
         | r => r
-        end
-    end in
-  match jq s with
+        end) s0
+  end.
+
+(* one batch of Runtime.leave: a panic leaving a job drops the rest of the batch *)
+Fixpoint run_batch (js : list job) (s : state) : state * outcome :=
+  match js with
   | [] => (s, ONorm)
-  | js =>
-      match batch js (set_jq [] s) with
-      | (s1, ONorm) => leave f s1
+  | j :: rest =>
+      match run_job j s with
+      | (s1, ONorm) | (s1, OUnwound _) => run_batch rest s1
       | r => r
       end
-  end end
-(* outermost RunProgram; returns the error value (if any) as third component *)
-with run_top (fuel : nat) (body : list node) (s : state) {struct fuel} : state * outcome * option payload :=
-  match fuel with O => (s, OStuck, None) | S f =>
+  end.
+
+(* outermost RunProgram (runtime.go:1434, not recursive); third component: the error returned *)
+Definition run_top_step (body : list node) (s : state) : state * outcome * option payload :=
   let fin (s : state) := set_cs (tl (cs s)) s in
   let recov (inbody : bool) (s : state) (p : payload) : state * outcome * option payload :=
     let s0 := fin s in
-    let s' := if fixed then set_sb (-1) (set_prg false s0)
-              else if inbody && prg s0 then deviate (if uncatchable_err p then 17 else 22)%nat s0 else s0 in
-    if uncatchable_err p then ((if Nat.eqb (length (cs s')) 0 then leave_abrupt s' else s'), ONorm, Some p)
-    else (host_panic_exit s', OPanic p, None) in
+    if uncatchable_err p then
+      (* len(vm.callStack) == 0: vm.prg = nil; vm.sb = -1; leaveAbrupt *)
+      ((if Nat.eqb (length (cs s0)) 0 then leave_abrupt (set_sb (-1) (set_prg false s0)) else s0), ONorm, Some p)
+    else
+      let s' := if fixed then set_sb (-1) (set_prg false s0)
+                else if inbody && prg s0 then deviate 22 s0 else s0 in
+      (host_panic_exit s', OPanic p, None) in
   let s1 := set_prg true (set_cs (halt_ctx :: cs s) s) in
-  match loop_out (run_items (exec f) body (push_try true false false s1)) with
+  match loop_out (run_items ex body (push_try true false false s1)) with
   | (s2, ONorm) =>
-      match leave f (set_sb (-1) (set_prg false (pop_try s2))) with
+      match lv (set_sb (-1) (set_prg false (pop_try s2))) with
       | (s3, ONorm) => (fin s3, ONorm, None)
       | (s3, OPanic p) => recov false s3 p
       | (s3, o) => (s3, o, None)
       end
   | (s2, OPanic p) =>
       if catchable p then
-        match leave f (set_sb (-1) (set_prg false (pop_try s2))) with
+        match lv (set_sb (-1) (set_prg false (pop_try s2))) with
         | (s3, ONorm) => (fin s3, ONorm, Some p)
         | (s3, OPanic p') => recov false s3 p'
         | (s3, o) => (s3, o, None)
         end
       else recov true (pop_try s2) p
   | (s2, o) => (s2, o, None)
-  end end.
+  end.
+
+End Nodes.
+
+Fixpoint exec (fuel : nat) (nd : node) (s : state) {struct fuel} : state * outcome :=
+  match fuel with O => (s, OStuck) | S f => node_step (exec f) (leave f) (run_top f) nd s end
+(* Runtime.leave (runtime.go:2836): drain the job queue batch by batch (jobs, r.jobQueue = r.jobQueue, jobs[:0]) *)
+with leave (fuel : nat) (s : state) {struct fuel} : state * outcome :=
+  match fuel with O => (s, OStuck) | S f =>
+  match jq s with
+  | [] => (s, ONorm)
+  | js =>
+      match run_batch (exec f) js (set_jq [] s) with
+      | (s1, ONorm) => leave f s1
+      | r => r
+      end
+  end end
+with run_top (fuel : nat) (body : list node) (s : state) {struct fuel} : state * outcome * option payload :=
+  match fuel with O => (s, OStuck, None) | S f => run_top_step (exec f) (leave f) body s end.
 
 End Exec.
 
